@@ -983,6 +983,9 @@ pub fn run(prop: &str, tier: &str) -> i32 {
         let a = stage("integer cube (index / slice / singular index, parsed and programmatic)", crate::checks::robust::cube(&run), t0);
         total = total.merge(a);
         let t0 = std::time::Instant::now();
+        let a = stage("programmatically built name selectors (odd names and escape-token texts, 5 quotings, 4 shapes)", crate::checks::robust::built_names(&run), t0);
+        total = total.merge(a);
+        let t0 = std::time::Instant::now();
         let a = stage("regular-expression pattern pipeline (stress patterns and nesting ladders 1..300)", crate::checks::robust::regex_patterns(&run), t0);
         total = total.merge(a);
         let t0 = std::time::Instant::now();
